@@ -491,6 +491,49 @@ func genC09(g *gen) {
 		z := xmss.NewXMSSFromExtendedSeed(es)
 		g.check(z.GetPK() == x.GetPK(), "xmss-random-recoverable", "NewXMSSFromHeight: GetExtendedSeed() does not regenerate the key")
 	}
+	// exported strings must stay what they were when other exports follow (a backup listing of several wallets)
+	g.note("exported mnemonics held across further exports")
+	{
+		sa, sb := g.bytes(48), g.bytes(48)
+		a, b := newKey(sa, 4, 0), newKey(sb, 4, 1)
+		var sd0, sd1 [48]byte
+		copy(sd0[:], g.bytes(48))
+		copy(sd1[:], g.bytes(48))
+		d0, _ := dilithium.NewDilithiumFromSeed(sd0)
+		d1, _ := dilithium.NewDilithiumFromSeed(sd1)
+		mA := a.GetMnemonic() // held
+		mD := d0.GetMnemonic()
+		hD := d0.GetHexSeed()
+		_ = b.GetMnemonic() // further exports in between
+		_ = d1.GetMnemonic()
+		_ = d1.GetHexSeed()
+		_ = b.GetMnemonic()
+		r := guard(func() string {
+			es := misc.MnemonicToExtendedSeedBin(mA)
+			if es != a.GetExtendedSeed() {
+				return "extended seed differs"
+			}
+			if xmss.NewXMSSFromExtendedSeed(es).GetPK() != a.GetPK() {
+				return "pk differs"
+			}
+			return "ok"
+		})
+		g.check(r == "ok", "held-mnemonic-xmss", "an XMSS mnemonic exported earlier no longer recovers the wallet after other exports: "+r,
+			fmt.Sprintf("x.new a %s 4 0 0", hx(sa)), fmt.Sprintf("x.new b %s 4 1 0", hx(sb)), "x.info a", "x.info b")
+		r = guard(func() string {
+			x, err := dilithium.NewDilithiumFromMnemonic(mD)
+			if err != nil || x.GetPK() != d0.GetPK() {
+				return "mnemonic: pk differs"
+			}
+			y, err := dilithium.NewDilithiumFromHexSeed(hD[2:])
+			if err != nil || y.GetPK() != d0.GetPK() {
+				return "hexseed: pk differs"
+			}
+			return "ok"
+		})
+		g.check(r == "ok", "held-mnemonic-dilithium", "a Dilithium mnemonic / hex seed exported earlier no longer recovers the wallet after other exports: "+r,
+			"dl.new d0 "+hx(sd0[:]), "dl.new d1 "+hx(sd1[:]))
+	}
 	g.note("Dilithium constructors")
 	nd := 3
 	if g.thorough {
